@@ -175,7 +175,7 @@ func runCheck(cfg checkCfg) int {
 			missing = append(missing, ct.Key)
 			continue
 		}
-		vc := genFunction(ld, specs, fn, ct, GenOpts{Safety: true})
+		vc := genFunction(ld, specs, fn, ct, GenOpts{Safety: true, Prop: cfg.prop})
 		runs = append(runs, &funcRun{vc: vc, ct: ct})
 	}
 	// interface refinements whose contracts carry the property
@@ -198,6 +198,9 @@ func runCheck(cfg checkCfg) int {
 	lemVC := genLemmas(ld, specs, cfg.prop)
 	if lemVC != nil {
 		runs = append(runs, &funcRun{vc: lemVC})
+	}
+	for name, be := range loadBaseline().Obligations {
+		solverHint[name] = be.Solver
 	}
 	sem := make(chan struct{}, 16)
 	var wg sync.WaitGroup
